@@ -128,6 +128,42 @@ def configs(tier: str, props) -> List[Any]:
     ]
 
 
+def stalled_case(args) -> Dict[str, Any]:
+    """a subscriber is not writable for n messages in a row (each is dropped and reported), then takes data again: from then on it
+    is served like everybody else - whatever n was, whether it is a subscriber by type, of everything, or a logger"""
+    tc, n, how = args
+    from .. import lock, mmx
+
+    mmx.fresh_gc()
+    env = lock.Env(timecode=tc, fin_grace=0, hids={"A": 1, "B": 2, "C": 3})
+    ids = {"A": (11, 1 if how == "logger" else 0), "B": (12, 0), "C": (13, 0)}
+    a = hub.Alphabet(tc, ids)
+    probs: List[Dict[str, Any]] = []
+    try:
+        for s in ("A", "B", "C"):
+            for ev in a.connect_v2(s, name=s.encode()) + [["settle"]]:
+                env.apply(ev)
+        for ev in a.ctl("A", P.MT_SUBSCRIBE, ALL if how != "type" else T1) + a.ctl("C", P.MT_SUBSCRIBE, T1) + [["settle"]]:
+            env.apply(ev)
+        for i in range(n):
+            for ev in a.data("B", T1, b"miss" + bytes([i % 250])):
+                env.apply(ev)
+            env.round(0, ["A"])
+            env.settle()
+        for j in range(3):
+            for ev in a.data("B", T1, b"then" + bytes([j]), dest_mod_id=11 if j == 1 else 0):
+                env.apply(ev)
+            env.settle()
+        probs += [dict(p) for p in env.problems if p["prop"] in ("C01", "C03")]
+        if not env.dead:
+            got = sum(1 for k in env.received["A"] if k[0] == "fwd" and k[3][:4] == b"then")
+            if got != 3:
+                probs.append({"prop": "C01", "kind": "not-served-after-a-stall", "missed_in_a_row": n, "delivered_afterwards": got, "expected": 3})
+    finally:
+        env.close()
+    return {"problems": probs, "rounds": env.rounds}
+
+
 def run(tier: str) -> int:
     chk = core.Check("C01", tier, "model_checking",
                      "BFS to fixpoint over joint subscription states of the real MessageManager (virtual TCP) in lock "
@@ -143,6 +179,11 @@ def run(tier: str) -> int:
         for k, v in t.items():
             totals[k] = totals.get(k, 0) + v
         chk.sample({"config": hub.get_cfg(b).name, "init": hub.get_cfg(b).init[:3]})
+    sargs = [(tc, n, how) for tc in (False, True) for n in ((1, 9, 10, 11, 30) if tier == "quick" else (1, 2, 9, 10, 11, 16, 30, 64, 100, 300)) for how in ("type", "all", "logger")]
+    for sa, r in zip(sargs, core.pmap(stalled_case, sargs)):
+        totals["transitions"] = totals.get("transitions", 0) + r["rounds"]
+        for p in r["problems"]:
+            chk.violation(f"{p['prop']}:{p['kind']}:stalled", f"stalled subscriber {sa}: {p}", {"module": "vf.checks.c01", "stalled": list(sa)}, size=sa[1])
     core.close_pool()
     trans = totals.get("transitions", 0) + totals.get("pair_transitions", 0) + totals.get("probes", 0) + totals.get(
         "nonwritable_probes", 0)
@@ -152,3 +193,13 @@ def run(tier: str) -> int:
     return chk.finish({"states": totals.get("states", 0), "transitions": trans,
                        "traces_validated_against_impl": trans,
                        "probe_deliveries": totals.get("probe_deliveries", 0), "per_config": per_cfg})
+
+
+def replay(case) -> int:
+    args = tuple(case["stalled"])
+    r = stalled_case(args)
+    print(f"  stalled subscriber {args}")
+    for p in r["problems"][:10]:
+        print("  PROBLEM:", p)
+    print("reproduced" if r["problems"] else "NOT reproduced")
+    return 1 if r["problems"] else 0
